@@ -195,6 +195,27 @@ def tiny_inputs():
     return out
 
 
+def disguised_text_docs():
+    """documents WITH text whose raw bytes do not contain the literal `<text`: namespace-prefixed elements (prefix bound to the SVG
+    namespace) and gzip-compressed input; also with an image and a filter.  -> list of (bytes, description)"""
+    import gzip
+    png = ('iVBORw0KGgoAAAANSUhEUgAAAAIAAAACCAYAAABytg0kAAAAFklEQVR4nGP8z8Dwn4GBgYGJAQoYGBgAJAICAbkcg/oAAAAASUVORK5CYII=')
+    ns = ('<s:svg xmlns:s="http://www.w3.org/2000/svg" xmlns:xlink="http://www.w3.org/1999/xlink" width="120" height="60">'
+          '<s:defs><s:filter id="f"><s:feGaussianBlur stdDeviation="1"/></s:filter></s:defs>'
+          '<s:rect id="r" x="2" y="2" width="30" height="20" fill="#c02040" filter="url(#f)"/>'
+          '<s:image x="40" y="4" width="8" height="8" xlink:href="data:image/png;base64,%s"/>'
+          '<s:text id="t" x="6" y="48" font-family="Noto Sans" font-size="18">Ag <s:tspan font-family="Noto Mono">q1</s:tspan></s:text></s:svg>' % png)
+    plain = ('<svg %s width="120" height="60"><rect id="r" x="2" y="2" width="30" height="20" fill="#2040c0"/>'
+             '<text id="t" x="6" y="48" font-family="Noto Serif" font-size="20">Text gj</text></svg>' % NS)
+    ent = ('<!DOCTYPE svg [<!ENTITY T "text">]><svg %s width="120" height="60"><rect width="10" height="10"/>'
+           '<&T; x="6" y="48" font-family="Noto Sans" font-size="18">entity</&T;></svg>' % NS)     # not well-formed XML: must fail cleanly
+    out = [(ns.encode(), 'prefixed namespace'), (gzip.compress(plain.encode(), mtime=0), 'svgz'),
+           (gzip.compress(ns.encode(), mtime=0), 'svgz + prefixed namespace'), (ent.encode(), 'entity in tag name (malformed)')]
+    for d, _ in out[:3]:
+        assert b'<text' not in d
+    return out
+
+
 def gen_cases(rng, quick):
     cases = []
     n = 150 if quick else 1200
@@ -269,6 +290,10 @@ def gen_cases(rng, quick):
     for data, what in tiny_inputs():
         cases.append(Case(data, kind='malformed:tiny', expect=1, prefill=True))
         cases.append(Case(data, kind='malformed:tiny', stdin=True, expect=1))
+    for data, what in disguised_text_docs():
+        bad = 'malformed' in what
+        for kw in (dict(), dict(stdin=True), dict(export_id='t'), dict(z='2', stdout=True), dict(w='200', prefill=True)):
+            cases.append(Case(data, kind='disguised-text:' + what, text=True, expect=(1 if bad else 0), **kw))
     # svgz
     import gzip
     cases.append(Case(gzip.compress(d0, mtime=0), kind='svgz', w='30'))
@@ -873,6 +898,15 @@ def usvg_oracle(ctx, rng, quick, binp, ub, wd):
                 jobs.append(dict(path=pth, argv=argv, lopts='-', wopts=';'.join(wopts) or '-', mode=0, idx=5000 + gi, must_fail=bad,
                                  prefill=(gi % 5 == 0)))
                 gi += 1
+    # documents with text whose raw bytes lack the literal `<text` (prefixed namespace, svgz), file and stdin, a few option sets
+    for j, (data, what) in enumerate(disguised_text_docs()):
+        pth = os.path.join(wd, 'u-dis-%d.%s' % (j, 'svgz' if data[:2] == b'\x1f\x8b' else 'svg'))
+        with open(pth, 'wb') as f:
+            f.write(data)
+        bad = 'malformed' in what
+        for m_, (argv_, wo_) in enumerate([([], []), ([], []), (['--preserve-text'], ['preserve_text']), (['--indent', '2'], ['indent=2'])]):
+            jobs.append(dict(path=pth, argv=list(argv_), lopts='-', wopts=';'.join(wo_) or '-', mode=(1 if m_ == 1 else 0), idx=6000 + 10 * j + m_,
+                             must_fail=bad, prefill=(m_ == 3)))
     # failure behaviour
     for j, (data, what) in enumerate(MALFORMED):
         p = os.path.join(wd, 'u-bad-%d.svg' % j)
@@ -1115,10 +1149,10 @@ def replay(ctx, path):
         tool = ub if rp.get('tool') == 'usvg' else rb
         argv = list(rp['argv'])
         data = None
-        if 'input' in rp and not os.path.exists(rp['input']):
-            data = rp['input'].encode()
-        elif 'input_hex' in rp:
+        if 'input_hex' in rp:
             data = bytes.fromhex(rp['input_hex'])
+        elif 'input' in rp and not os.path.exists(rp['input']) and rp['input'].lstrip().startswith('<'):
+            data = rp['input'].encode()
         inp = os.path.join(wd, 'in.svg')
         if data is not None:
             with open(inp, 'wb') as f:
@@ -1127,7 +1161,7 @@ def replay(ctx, path):
         # re-target the recorded scratch paths
         new = []
         for a in argv:
-            if re.search(r"/c\d{5}\.svg$|/u-(tiny|bad|missing)(-\d+)?\.svg$", a):
+            if re.search(r"/c\d{5}\.svg$|/u-(tiny|bad|missing|dis|prec)(-\d+)?\.svgz?$", a):
                 new.append(inp)
             elif re.search(r"/c\d{5}\.png$|/o\.png$|/u\d{5}\.svg$", a):
                 new.append(outp)
